@@ -638,7 +638,7 @@ class Frame:
                 return TOP
             if short in ("arange",):
                 if all(isinstance(v, Sc) and v.dep in ("const", "len") for v in av + kv):
-                    return Arr(NINF, _arange_dlen(args), False, None, "")
+                    return Arr(NINF, _arange_dlen(args, self), False, None, "")
                 return TOP
             if short in ("ones", "zeros", "empty", "full"):
                 if all(isinstance(v, Sc) and v.dep in ("const", "len") for v in av + kv):
@@ -848,18 +848,30 @@ def _is_warn(s):
         "warnings.warn", "warn", "print")
 
 
+def _through_names(n, frame, depth=0):
+    """a local name stands for the expression it was last assigned (`n = len(x)` ... `np.arange(n)`)"""
+    while isinstance(n, ast.Name) and frame is not None and n.id in getattr(frame, "defs", {}) and depth < 4:
+        d = frame.defs[n.id]
+        if not isinstance(d, ast.AST) or isinstance(d, (ast.Tuple, ast.List)):
+            break
+        n, depth = d, depth + 1
+    return n
+
+
 def _is_len_of_sample(n, frame):
+    n = _through_names(n, frame)
     if isinstance(n, ast.Call) and norm(n.func) == "len" and len(n.args) == 1:
         v = frame.ev(n.args[0])
         return isinstance(v, Arr) and v.dlen == 0
     return False
 
 
-def _arange_dlen(args):
+def _arange_dlen(args, frame=None):
     """Length of np.arange(...) relative to n = len(x), for the forms in use."""
 
     def lin(n):
         # returns (coef_of_len, const) or None
+        n = _through_names(n, frame)
         if isinstance(n, ast.Call) and norm(n.func) == "len":
             return (1, 0)
         k = _const_int(n)
